@@ -39,7 +39,8 @@ def gen_block(rng):
             lines.append("%s = %s" % (var(), lit))
         elif r < 0.45:
             q = rng.choice(['"""', "'''"])
-            inner = rng.choice(["one\n  two\n    three", "# not a comment\nx", "a\\\nb", "  lead", "quote \" inside", "it's", ""])
+            inner = rng.choice(["one\n  two\n    three", "# not a comment\nx", "a\\\nb", "  lead", "quote \" inside", "it's", "", "first\n    \n  second", "t\n\t\nu",
+                                "x\n\n  \ny  "])
             if q[0] in inner:
                 q = "'''" if q == '"""' else '"""'
             lines.append("%s = %s%s%s" % (var(), q, inner, q))
@@ -451,7 +452,7 @@ def run(ctx):
         try:
             native_src = text.replace("\r\n", "\n")
             if m:
-                native = exec_values("if True:\n" + "\n".join((ln if ln.strip() else "") for ln in native_src.split("\n")) + "\n" + m + "pass\n")
+                native = exec_values("if True:\n" + native_src + "\n" + m + "pass\n")
             else:
                 native = exec_values(native_src)
             adjusted = exec_values(got)
@@ -464,6 +465,54 @@ def run(ctx):
         except Exception:  # noqa
             pass
     ctx.generators["margin_blocks"] = {"cases": nb}
+    # the printer side: write_indented_block + flush at an indentation level, against the model; and the whole path through a template
+    import io
+    req2, cases2 = [], []
+    for bi, (text, got) in enumerate(cases[: (300 if tier == "quick" else 6000)]):
+        level = bi % 4
+        pr = pygen.PythonPrinter(io.StringIO())
+        pr.indent = level
+        pr.write_indented_block(got)
+        pr.close()
+        out = pr.stream.getvalue()
+        ctx.evaluations += 1
+        req2.append("flush|%d|%s" % (level, enc(got)))
+        cases2.append((got, level, out))
+        weak = "\"#\" + '''" in text
+        # the printer's own detector counts triple-quote tokens wherever they stand: one inside a comment flips its state
+        pweak = any(ln.lstrip().startswith("#") and ('\"\"\"' in ln or "'''" in ln) for ln in text.split("\n"))
+        # end to end: the block inside a template at that nesting level binds the same values as the block as written
+        if "\r" in text:
+            continue
+        opener = ["", "% if True:\n", "% for _q in [1]:\n% if True:\n", "% if True:\n% for _q in [1]:\n% if True:\n"][level]
+        closer = ["", "% endif\n", "% endif\n% endfor\n", "% endif\n% endfor\n% endif\n"][level]
+        names = sorted(set(__import__("re").findall(r"\bv\d+\b", text)))
+        tsrc = opener + "<%" + text + "%>\n" + "".join("${repr(%s)}|" % n_ for n_ in names) + "\n" + closer
+        try:
+            m_ = text.split("\n")[1][: len(text.split("\n")[1]) - len(text.split("\n")[1].lstrip())] if text.startswith("\n") and len(text.split("\n")) > 1 else ""
+            native_src = text
+            probe = native_src.replace("\r\n", "\n")
+            first = next((ln for ln in probe.split("\n") if ln.strip() and not ln.lstrip().startswith("#")), "")
+            m_ = first[: len(first) - len(first.lstrip())]
+            native = exec_values(("if True:\n" + probe + "\n" + m_ + "pass\n") if m_ else probe)
+        except Exception:  # noqa
+            continue
+        try:
+            rendered = Template(tsrc).render()
+            want = "".join("%r|" % native[n_] for n_ in names if n_ in native)
+            if all(n_ in native for n_ in names) and rendered.strip() != want.strip():
+                ctx.violation({"template": tsrc, "rendered": rendered.strip()[:300], "expected": want[:300]},
+                              "a code block inside a template binds different values than the block as written", tags=["c19.margin.hash-in-string" if weak else "c19.margin.printer-quote-in-comment" if pweak else "c19.margin.template-values"])
+        except Exception as e:  # noqa
+            if all(n_ in native for n_ in names):
+                ctx.violation({"template": tsrc, "error": repr(e)[:200]}, "a code block that runs as written fails inside a template",
+                              tags=["c19.margin.hash-in-string" if weak else "c19.margin.printer-quote-in-comment" if pweak else "c19.margin.template-raise"])
+    ctx.generators["printer_blocks"] = {"cases": len(cases2)}
+    if model_ok:
+        for (got, level, out), m in zip(cases2, common.run_driver(PROP, req2)):
+            model_out = "".join(dec(x) + "\n" for x in m.split(";")) if m else ""
+            if model_out != out:
+                disagreements.append(("flush_adjusted_lines", {"block": got, "level": level}, model_out, out))
     if model_ok:
         for (text, got), m in zip(cases, common.run_driver(PROP, req)):
             if dec(m) != got:
